@@ -1,8 +1,8 @@
 (** The front end's own parser, read as a relation: peg.peg's rule tree (Generated/PegPeg.v, regenerated
     from the source on every run) under the reference semantics, with the builder calls its actions make. *)
 From PegV Require Import Base.Tac Base.ListX Spec.Syntax Spec.Peg Spec.Tokens Proofs.PegFacts Proofs.PegRel Model.Calls Generated.PegPeg.
+From PegV Require Export Reader.Defs.
 
-Definition call := (bcall * list rune)%type.
 Definition arg_of (a : carg) (txt : list rune) : list rune :=
   match a with ANone => [] | AText => txt | AConst s => s end.
 Definition calls1 (e : evt) : list call :=
